@@ -103,6 +103,14 @@ def ob_deque(w, P):
         ok, r, o = call_both(lambda: dq.remove(v), lambda: od.remove(v))
     elif op in ('extend', 'extendleft'):
         ok, r, o = call_both(lambda: getattr(dq, op)([v, v2]), lambda: getattr(od, op)([v, v2]))
+    elif op in ('extend_failing', 'extendleft_failing'):
+        # the iterable raises after it has produced items: collections.deque keeps what it was given so far
+        def failing():
+            yield v
+            yield v2
+            raise ValueError('iterable failed')
+        meth = op.split('_')[0]
+        ok, r, o = call_both(lambda: getattr(dq, meth)(failing()), lambda: getattr(od, meth)(failing()))
     elif op == 'iadd':
         def f1():
             d2 = dq
@@ -303,7 +311,7 @@ def ob_index(w, P):
     return x.result()
 
 
-DEQUE_OPS = ['append', 'appendleft', 'extend', 'extendleft', 'iadd', 'pop', 'popleft', 'peek', 'peekleft', 'getitem', 'setitem', 'delitem', 'rotate', 'rotate_bad',
+DEQUE_OPS = ['append', 'appendleft', 'extend', 'extendleft', 'extend_failing', 'extendleft_failing', 'iadd', 'pop', 'popleft', 'peek', 'peekleft', 'getitem', 'setitem', 'delitem', 'rotate', 'rotate_bad',
              'reverse', 'remove', 'count', 'len', 'iter', 'reversed', 'contains', 'index', 'clear', 'maxlen_set', 'eq', 'ne', 'lt', 'le', 'gt', 'ge', 'copy', 'state']
 INDEX_OPS = ['getitem', 'setitem', 'delitem', 'pop', 'pop_default', 'popitem_last', 'popitem_first', 'peekitem_last', 'peekitem_first', 'setdefault', 'get', 'contains',
              'update', 'len', 'keys', 'values', 'items', 'reversed', 'clear', 'eq_ordered', 'eq_dict', 'ne_ordered', 'state']
